@@ -11,9 +11,9 @@ open NasdaqModel GenHistory
 
 def specA : SoupSpec := ⟨1, some [(1, 0), (2, 1)], [1, 2], [65, 66]⟩
 def specC : SoupSpec := ⟨2, none, [1], [65]⟩              -- no fielddef-root, one `def=` reference: fails alone (KeyError)
-def optsX (d : Nat) : GenOpts := ⟨[120], [], true, .out d⟩   -- app "x"
-def optsY (d : Nat) : GenOpts := ⟨[121], [], true, .out d⟩   -- app "y"
-def optsG (d : Nat) : GenOpts := ⟨[103], [], true, .out d⟩   -- app "g"
+def optsX (d : Nat) : GenOpts := ⟨[120], [], true, .out d, true⟩  -- app "x"
+def optsY (d : Nat) : GenOpts := ⟨[121], [], true, .out d, true⟩  -- app "y"
+def optsG (d : Nat) : GenOpts := ⟨[103], [], true, .out d, true⟩  -- app "g"
 def fixA : FixSpec := ⟨1, 44, [1, 2], [1], [.mk 1 [2] [.mk 2 [1] []]], [1, 2]⟩
 def fixB : FixSpec := ⟨2, 44, [3], [3], [.mk 1 [3] []], [1]⟩
 def soupA (d : Nat) : Inv := .soup .ouch specA (optsX d)
